@@ -57,6 +57,7 @@ func (srv *Server) ListenAndServe() error {
 
 	ctx, cancel := context.WithCancel(context.Background())
 	srv.shutdown = cancel
+	closeCtx := ctx // only done when Close is called
 
 	if len(srv.listeners) == 0 {
 		return errors.New("no listeners found")
@@ -84,7 +85,9 @@ func (srv *Server) ListenAndServe() error {
 
 	err := eg.Wait()
 
-	if errors.Is(err, ctx.Err()) {
+	if closeCtx.Err() != nil || errors.Is(err, ctx.Err()) {
+		// The server was stopped by Close. The first goroutine to end may report a listener error
+		// instead of the context one (for instance, when it tries to accept on a closed listener).
 		return ErrServerClosed
 	}
 	return err
